@@ -607,6 +607,14 @@ func rtErrorSemantics(a *aggregator, v *rtView, maxLen int) {
 						pe := it.newObj(peT)
 						pe.field("p").v = parser
 						pe.field("maxToken").v = tok
+						// the text the error is about, where the error keeps it itself
+						if pst, ok := peT.Underlying().(*types.Struct); ok {
+							for i := 0; i < pst.NumFields(); i++ {
+								if types.TypeString(pst.Field(i).Type(), nil) == "[]rune" {
+									pe.fields[i].v = bv
+								}
+							}
+						}
 						res := it.callDecl(fd, pe)
 						n++
 						msg, _ := res[0].(string)
